@@ -70,7 +70,10 @@ def run(ctx):
                       constants=dict(consts, Fixed="TRUE", EmitAt='"rounds"'), require_actions=["Update", "Finish"])
         if not res.replays:
             raise ToolError("NetReport_C28 produced no histories")
-        judge(ctx, res.replays, run_harness(ctx, res.replays, "g%d" % n))
+        obs = run_harness(ctx, res.replays, "g%d" % n)
+        judge(ctx, res.replays, obs)
+        if n == 0:
+            binding_selftest(ctx, res.replays, obs)
     # longer histories over three relays: random behaviours (seeded), same invariants, same replay
     res = ctx.tlc("netreport", "NetReport", cfg="NetReport_C28.cfg", mode="sim", sim=ctx.pick(3000, 60000), depth=40,
                   timeout=3000, constants=dict(NRelays=3, Lats="{4, 5, 6, 9}", MaxProbes=4, MaxProbesFirst=4, MaxRounds=3,
@@ -119,6 +122,33 @@ def classify(rnd, got):
         sig["wrong"] = "not_best_over_window"
     sig["explained_by"] = "last_iterated_latency" if got == rnd["aswritten"] and rnd["aswritten"] != rnd["code"] else "nothing"
     return sig
+
+
+def first_forbidden(rounds, got):
+    """Index of the first round whose observed choice is outside the allowed set (None: all allowed / diverged before)."""
+    for i, r in enumerate(rounds):
+        if got[i] not in r["allowed"]:
+            return i
+        if got[i] != r["choice"]:
+            return None
+    return None
+
+
+def binding_selftest(ctx, cases, obs):
+    """Flipping one expectation must flip the verdict."""
+    import copy
+    for c, o in zip(cases, obs):
+        if o.get("panic") or first_forbidden(c["rounds"], o["got"]) is not None:
+            continue
+        last = c["rounds"][-1]
+        if o["got"][:-1] == [r["choice"] for r in c["rounds"][:-1]] and len(last["allowed"]) == 1 and last["allowed"][0] != "none":
+            bad = copy.deepcopy(c)
+            bad["rounds"][-1]["allowed"] = ["none"]
+            if first_forbidden(bad["rounds"], o["got"]) != len(c["rounds"]) - 1:
+                raise ToolError("binding self-test: a falsified allowed set was not noticed")
+            ctx.log("binding self-test: falsified allowed set rejected")
+            return
+    raise ToolError("binding self-test: no suitable accepted history")
 
 
 def judge(ctx, cases, obs):
